@@ -50,6 +50,7 @@ type JobResult struct {
 	AssertsConst    int64
 	UnknownPaths    int
 	seen            map[uint64]bool
+	Wall            time.Duration
 }
 
 type workItem struct {
@@ -91,6 +92,22 @@ func NewRunner(l *Loaded, workers int, solverBin string, timeoutMs int) *Runner 
 // normPanic reduces a panic message to its class (numbers abstracted); same algorithm as the prelude's.
 func normPanic(msg string) string {
 	msg = strings.TrimPrefix(msg, "runtime error: ")
+	for _, cls := range []string{"slice bounds out of range", "index out of range", "interface conversion", "makeslice",
+		"invalid memory address or nil pointer dereference", "comparing uncomparable", "hash of unhashable"} {
+		if strings.HasPrefix(msg, cls) {
+			return cls
+		}
+	}
+	// messages built with fmt from run-time values: keep the constant prefix only
+	for i := 0; i < len(msg); i++ {
+		c := msg[i]
+		if c >= '0' && c <= '9' || c == '(' || c == '<' || c == '[' || c == '"' || c >= 0x80 || c == '-' && i+1 < len(msg) && msg[i+1] >= '0' && msg[i+1] <= '9' {
+			if i > 12 {
+				return strings.TrimSpace(msg[:i])
+			}
+			break
+		}
+	}
 	var sb strings.Builder
 	isHex := func(c byte) bool { return c >= '0' && c <= '9' || c >= 'a' && c <= 'f' }
 	for i := 0; i < len(msg); {
@@ -254,12 +271,14 @@ type pathOutcome struct {
 func (r *Runner) runPath(x *Exec, it workItem, setups map[string]bool) {
 	job := r.jobs[it.ji]
 	res := r.results[it.ji]
+	pathStart := time.Now()
 	pkg := r.l.pkg(job.Pkg)
 	out := pathOutcome{}
 	record := func() {
 		r.mu.Lock()
 		defer r.mu.Unlock()
 		res.Paths++
+		res.Wall += time.Since(pathStart)
 		if out.completed {
 			res.Completed++
 		}
